@@ -1315,6 +1315,123 @@ Proof.
   injection A as A'. injection B as B'. ord.
 Qed.
 
+(* ------------------------------------------------------------------ completeness of is_point / is_full on a dense carrier *)
+Lemma L_pt_le X v : cmpc (L X) (pt v) = Lt -> cmp (ia X) v <> Gt.
+Proof.
+  unfold cmpc, L, pt; cbn [fst snd]. destruct (cmp (ia X) v); try discriminate; intros; discriminate.
+Qed.
+Lemma pt_H_le X v : cmpc (pt v) (H X) = Lt -> cmp v (get_ub X) <> Gt.
+Proof.
+  unfold cmpc, H, pt; cbn [fst snd]. destruct (cmp v (get_ub X)); try discriminate; intros; discriminate.
+Qed.
+Lemma WF_ia_le_ub X : WF cmp X -> cmp (ia X) (get_ub X) <> Gt.
+Proof.
+  unfold WF, get_ub, lt. destruct (ipt X).
+  - intros _. apply (to_le_refl TO).
+  - intro E. rewrite E. discriminate.
+Qed.
+Lemma strictly_inside X z : ipt X = false -> cmp (ia X) z = Lt -> cmp z (ib X) = Lt -> mem cmp z X.
+Proof.
+  intros Ep A B. unfold mem, get_ub, lt, le. rewrite Ep, A, B. destruct (ia_open X), (ib_open X); split; congruence.
+Qed.
+
+Lemma is_point_dense s : dense cmp -> NF cmp s ->
+  (exists a, forall v, mem_set cmp v s <-> v = a) -> fs_is_point s = true.
+Proof.
+  intros Dn N (a & Ha).
+  destruct s as [|X t].
+  { exfalso. assert (K : mem_set cmp a []) by (apply Ha; reflexivity). destruct K as (Z & [] & _). }
+  pose proof (NF_head _ _ N) as WX.
+  assert (Ep : ipt X = true).
+  { destruct (ipt X) eqn:Ep; [reflexivity|exfalso].
+    unfold WF in WX. rewrite Ep in WX. unfold lt in WX.
+    destruct (Dn _ _ WX) as (z1 & A1 & B1). destruct (Dn _ _ B1) as (z2 & A2 & B2).
+    assert (M1 : mem_set cmp z1 (X :: t)) by (exists X; split; [left; auto|apply strictly_inside; auto]).
+    assert (M2 : mem_set cmp z2 (X :: t)).
+    { exists X; split; [left; auto|apply strictly_inside; auto]. ord. }
+    apply Ha in M1, M2. subst. ord. }
+  destruct t as [|Y t']; [exact Ep|exfalso].
+  pose proof (NF_head _ _ (NF_tail _ _ N)) as WY.
+  destruct N as (_ & S & _). apply sep_cut in S.
+  destruct (WF_inhabited Y Dn WY) as (w & Mw).
+  assert (Mw' : mem_set cmp w (X :: Y :: t')) by (exists Y; split; [right; left; auto|exact Mw]).
+  apply Ha in Mw'. subst w.
+  assert (Mx : mem cmp (ia X) X).
+  { unfold WF in WX. rewrite Ep in WX. destruct WX as (Oa & Ob & _).
+    unfold mem, get_ub, lt, le. rewrite Ep, Oa, Ob, (to_refl TO). split; discriminate. }
+  assert (Mx' : mem_set cmp (ia X) (X :: Y :: t')) by (exists X; split; [left; auto|exact Mx]).
+  apply Ha in Mx'. rewrite Mx' in Mx.
+  apply mem_cut in Mx, Mw. destruct Mx as [_ M1], Mw as [M2 _]. ord.
+Qed.
+
+Lemma is_full_dense minf pinf s : dense cmp -> bounds cmp minf pinf -> NF cmp s ->
+  (forall v, finite cmp minf pinf v -> mem_set cmp v s) -> fs_is_full cmp minf pinf s = true.
+Proof.
+  intros Dn [Bmin Bmax Bne Bbelow Babove] N Hall.
+  assert (FIN : forall y, y <> minf -> y <> pinf -> finite cmp minf pinf y).
+  { intros y N1 N2. split; unfold lt.
+    - destruct (to_ngt_cases TO _ _ (Bmin y)) as [K|K]; [exact K|congruence].
+    - destruct (to_ngt_cases TO _ _ (Bmax y)) as [K|K]; [exact K|congruence]. }
+  (* the set is not empty *)
+  destruct (Bbelow pinf (fun E => Bne (eq_sym E))) as (y0 & Ny0 & Ly0).
+  assert (F0 : finite cmp minf pinf y0) by (apply FIN; auto; intro E; subst; ord).
+  destruct s as [|X t].
+  { destruct (Hall y0 F0) as (Z & [] & _). }
+  pose proof (NF_head _ _ N) as WX. pose proof (WF_cut _ WX) as W1.
+  pose proof (NF_hull X t N) as HULL.
+  pose proof (WF_ia_le_ub X WX) as LEX.
+  (* (a) the first interval starts at -inf *)
+  assert (Ea : ia X = minf).
+  { destruct (to_total TO (ia X) minf) as [K|[K|K]]; [exfalso; pose proof (Bmin (ia X)); ord | exact K | exfalso].
+    destruct (Bbelow (ia X)) as (y & Ny & Ly); [intro E; rewrite E in K; ord|].
+    assert (Fy : finite cmp minf pinf y).
+    { apply FIN; auto. intro E. subst y. pose proof (Bmax (ia X)). ord. }
+    destruct (Hall y Fy) as (Z & HZ & Mz). apply mem_cut in Mz. destruct Mz as [M1 _].
+    destruct (HULL Z HZ) as [K1 _].
+    assert (C : cmpc (L X) (pt y) = Lt) by ord. apply L_pt_le in C. ord. }
+  (* (b) there is no second interval *)
+  assert (Et : t = []).
+  { destruct t as [|Y t']; [reflexivity|exfalso].
+    pose proof (NF_tail _ _ N) as Nt. pose proof (NF_head _ _ Nt) as WY. pose proof (WF_cut _ WY) as W2.
+    pose proof (NF_hull Y t' Nt) as HULLY. pose proof (WF_ia_le_ub Y WY) as LEY.
+    destruct N as (_ & S & _). pose proof S as S'. apply sep_cut in S'.
+    assert (NOT : forall z, finite cmp minf pinf z -> cmpc (H X) (pt z) = Lt -> cmpc (pt z) (L Y) = Lt -> False).
+    { intros z Fz A B. destruct (Hall z Fz) as (Z & [<-|HZ] & Mz); apply mem_cut in Mz; destruct Mz as [M1 M2].
+      - ord.
+      - destruct (HULLY Z HZ) as [K1 _]. ord. }
+    destruct S as [S|(S & Ob & Oa)].
+    - (* ub X < lb Y: a value strictly between *)
+      destruct (Dn _ _ S) as (z & A & B).
+      apply (NOT z).
+      + apply FIN; intro E; subst z.
+        * rewrite <- Ea in A. ord.
+        * pose proof (Bmax (ia Y)). ord.
+      + unfold cmpc, H, pt; cbn [fst snd]. unfold lt in A. rewrite A. reflexivity.
+      + unfold cmpc, L, pt; cbn [fst snd]. unfold lt in B. rewrite B. reflexivity.
+    - (* they meet in a value that belongs to neither *)
+      assert (PX : ipt X = false).
+      { destruct (ipt X) eqn:Ep; [|reflexivity]. unfold WF in WX. rewrite Ep in WX. destruct WX as (_ & K & _). congruence. }
+      assert (PY : ipt Y = false).
+      { destruct (ipt Y) eqn:Ep; [|reflexivity]. unfold WF in WY. rewrite Ep in WY. destruct WY as (K & _ & _). congruence. }
+      apply (NOT (ia Y)).
+      + apply FIN; intro E.
+        * unfold WF in WX. rewrite PX in WX. unfold lt in WX. unfold get_ub in S. rewrite PX in S.
+          rewrite S, E, Ea in WX. ord.
+        * unfold WF in WY. rewrite PY in WY. unfold lt in WY. rewrite E in WY. pose proof (Bmax (ib Y)). ord.
+      + unfold cmpc, H, pt; cbn [fst snd]. rewrite S, (to_refl TO), Ob. reflexivity.
+      + unfold cmpc, L, pt; cbn [fst snd]. rewrite (to_refl TO), Oa. reflexivity. }
+  subst t.
+  (* (c) the interval ends at +inf *)
+  assert (Eb : get_ub X = pinf).
+  { destruct (to_total TO (get_ub X) pinf) as [K|[K|K]]; [exfalso | exact K | exfalso; pose proof (Bmax (get_ub X)); ord].
+    destruct (Babove (get_ub X)) as (y & Ny & Ly); [intro E; rewrite E in K; ord|].
+    assert (Fy : finite cmp minf pinf y).
+    { apply FIN; auto. intro E. subst y. rewrite <- Ea in Ly. ord. }
+    destruct (Hall y Fy) as (Z & [<-|[]] & Mz). apply mem_cut in Mz. destruct Mz as [_ M2].
+    apply pt_H_le in M2. ord. }
+  unfold fs_is_full, get_lb. rewrite Ea, Eb, !(to_refl TO). reflexivity.
+Qed.
+
 End Main.
 
 (* ------------------------------------------------------------------ the rank instance *)
@@ -1325,3 +1442,358 @@ Proof.
   - intros x y. apply Z.compare_antisym.
   - intros x y z. rewrite !Z.compare_lt_iff. lia.
 Qed.
+
+(* ------------------------------------------------------------------ integer queries on rational end points *)
+Section IntOps.
+Local Open Scope Z_scope.
+
+Lemma floor_le n d z : 0 < d -> (z <= n / d <-> z * d <= n).
+Proof.
+  intro Hd. split; intro K.
+  - pose proof (Z.mul_div_le n d Hd). nia.
+  - apply Z.div_le_lower_bound; lia.
+Qed.
+Lemma ceil_le n d z : 0 < d -> (z_cdiv n d <= z <-> n <= z * d).
+Proof.
+  intro Hd. unfold z_cdiv. pose proof (floor_le (- n) d (- z) Hd). lia.
+Qed.
+Lemma div_1 n : n / 1 = n. Proof. apply Z.div_1_r. Qed.
+Lemma cdiv_1 n : z_cdiv n 1 = n. Proof. unfold z_cdiv. rewrite Z.div_1_r. lia. Qed.
+
+Lemma not_multiple n d z : 0 < d -> Z.gcd n d = 1 -> d <> 1 -> n <> z * d.
+Proof.
+  intros Hd G Hn E. subst n. rewrite Z.gcd_comm, Z.mul_comm, Z.gcd_mul_diag_l in G by lia. lia.
+Qed.
+
+Definition LBq (q : rat) (o : bool) : Z :=
+  if q_is_integer q then fst q + (if o then 1 else 0) else q_ceiling q.
+Definition UBq (q : rat) (o : bool) : Z :=
+  if q_is_integer q then fst q - (if o then 1 else 0) else q_floor q.
+
+Lemma lower_int q (o : bool) z : xq_ok (XFin q) ->
+  ((if o then lt xq_cmp (XFin q) (zq z) else le xq_cmp (XFin q) (zq z)) <-> LBq q o <= z).
+Proof.
+  destruct q as [n d]. cbn [xq_ok fst snd]. intros [Hd G].
+  unfold lt, le, zq, xq_cmp, LBq, q_is_integer, q_ceiling; cbn [fst snd].
+  rewrite Z.mul_1_r. destruct (d =? 1) eqn:E.
+  - apply Z.eqb_eq in E. subst d. rewrite Z.mul_1_r. destruct o.
+    + rewrite Z.compare_lt_iff. lia.
+    + rewrite Z.compare_gt_iff. lia.
+  - apply Z.eqb_neq in E. pose proof (not_multiple n d z Hd G E) as NM.
+    rewrite (ceil_le n d z Hd). destruct o.
+    + rewrite Z.compare_lt_iff. lia.
+    + rewrite Z.compare_gt_iff. lia.
+Qed.
+
+Lemma upper_int q (o : bool) z : xq_ok (XFin q) ->
+  ((if o then lt xq_cmp (zq z) (XFin q) else le xq_cmp (zq z) (XFin q)) <-> z <= UBq q o).
+Proof.
+  destruct q as [n d]. cbn [xq_ok fst snd]. intros [Hd G].
+  unfold lt, le, zq, xq_cmp, UBq, q_is_integer, q_floor; cbn [fst snd].
+  rewrite Z.mul_1_r. destruct (d =? 1) eqn:E.
+  - apply Z.eqb_eq in E. subst d. rewrite Z.mul_1_r. destruct o.
+    + rewrite Z.compare_lt_iff. lia.
+    + rewrite Z.compare_gt_iff. lia.
+  - apply Z.eqb_neq in E. pose proof (not_multiple n d z Hd G E) as NM.
+    rewrite (floor_le n d z Hd). destruct o.
+    + rewrite Z.compare_lt_iff. lia.
+    + rewrite Z.compare_gt_iff. lia.
+Qed.
+
+(* integers of a bounded non-point interval form the range LBq .. UBq *)
+Lemma int_mem_finite a b (ao bo : bool) z : xq_ok (XFin a) -> xq_ok (XFin b) ->
+  (int_mem z (mkItv (XFin a) (XFin b) ao bo false) <-> LBq a ao <= z <= UBq b bo).
+Proof.
+  intros Oa Ob. unfold int_mem, mem, get_ub; cbn [ia ib ia_open ib_open ipt].
+  rewrite (lower_int a ao z Oa), (upper_int b bo z Ob). tauto.
+Qed.
+
+(* a < b leaves room: the smallest integer above a is at most one more than the largest integer below b *)
+Lemma strict_gap a b : xq_ok (XFin a) -> xq_ok (XFin b) -> xq_cmp (XFin a) (XFin b) = Lt ->
+  LBq a true <= UBq b true + 1.
+Proof.
+  intros Oa Ob Hlt.
+  pose proof (lower_int a true (LBq a true - 1) Oa) as C1.
+  pose proof (upper_int b true (UBq b true + 1) Ob) as F1.
+  destruct a as [n d], b as [n' d']. cbn [xq_ok fst snd] in Oa, Ob. destruct Oa as [Hd G], Ob as [Hd' G'].
+  set (x := LBq (n, d) true - 1) in *. set (y := UBq (n', d') true + 1) in *.
+  unfold lt, zq, xq_cmp in C1, F1, Hlt; cbn [fst snd] in C1, F1, Hlt.
+  rewrite Z.compare_lt_iff in C1, F1, Hlt. rewrite Z.mul_1_r in C1, F1.
+  assert (C2 : x * d <= n) by lia. assert (F2 : n' <= y * d') by lia.
+  assert (P1 : x * d * d' <= n * d') by (apply Z.mul_le_mono_nonneg_r; lia).
+  assert (P2 : n' * d <= y * d' * d) by (apply Z.mul_le_mono_nonneg_r; lia).
+  assert (P3 : 0 < d * d') by lia.
+  assert (K : x < y).
+  { apply (Z.mul_lt_mono_pos_r (d * d')); [exact P3|].
+    replace (x * (d * d')) with (x * d * d') by ring. replace (y * (d * d')) with (y * d' * d) by ring. lia. }
+  lia.
+Qed.
+
+Lemma LBq_closed a : LBq a false = LBq a true - (if q_is_integer a then 1 else 0).
+Proof. unfold LBq. destruct (q_is_integer a); lia. Qed.
+Lemma UBq_closed b : UBq b false = UBq b true + (if q_is_integer b then 1 else 0).
+Proof. unfold UBq. destruct (q_is_integer b); lia. Qed.
+Lemma LBq_true a : LBq a true = (if q_is_integer a then q_ceiling a + 1 else q_ceiling a).
+Proof.
+  unfold LBq, q_is_integer, q_ceiling. destruct a as [n d]; cbn [fst snd].
+  destruct (d =? 1) eqn:E; auto. apply Z.eqb_eq in E. subst. rewrite cdiv_1. reflexivity.
+Qed.
+Lemma UBq_true b : UBq b true = (if q_is_integer b then q_floor b - 1 else q_floor b).
+Proof.
+  unfold UBq, q_is_integer, q_floor. destruct b as [n d]; cbn [fst snd].
+  destruct (d =? 1) eqn:E; auto. apply Z.eqb_eq in E. subst. rewrite div_1. reflexivity.
+Qed.
+
+Lemma int_mem_minf_fin b (ao bo : bool) z : xq_ok (XFin b) ->
+  (int_mem z (mkItv XMinf (XFin b) ao bo false) <-> z <= UBq b bo).
+Proof.
+  intros Ob. unfold int_mem, mem, get_ub; cbn [ia ib ia_open ib_open ipt].
+  rewrite (upper_int b bo z Ob). unfold lt, le, zq; cbn. destruct ao; split; intros; try tauto; split; auto; discriminate.
+Qed.
+Lemma int_mem_fin_pinf a (ao bo : bool) z : xq_ok (XFin a) ->
+  (int_mem z (mkItv (XFin a) XPinf ao bo false) <-> LBq a ao <= z).
+Proof.
+  intros Oa. unfold int_mem, mem, get_ub; cbn [ia ib ia_open ib_open ipt].
+  rewrite (lower_int a ao z Oa). unfold lt, le, zq; cbn. destruct bo; split; intros; try tauto; split; auto; discriminate.
+Qed.
+Lemma int_mem_minf_pinf (ao bo : bool) z : int_mem z (mkItv XMinf XPinf ao bo false).
+Proof. unfold int_mem, mem, get_ub, lt, le, zq; cbn. destruct ao, bo; split; congruence. Qed.
+Lemma int_mem_point a b z : xq_ok (XFin a) ->
+  (int_mem z (mkItv (XFin a) b false false true) <-> LBq a false <= z <= UBq a false).
+Proof.
+  intros Oa. unfold int_mem, mem, get_ub; cbn [ia ib ia_open ib_open ipt].
+  rewrite (lower_int a false z Oa), (upper_int a false z Oa). tauto.
+Qed.
+Lemma point_int_range a : xq_ok (XFin a) ->
+  if q_is_integer a then LBq a false = fst a /\ UBq a false = fst a else UBq a false < LBq a false.
+Proof.
+  intros Oa. pose proof (lower_int a false) as L1. pose proof (upper_int a false) as U1.
+  unfold LBq, UBq in *. destruct (q_is_integer a) eqn:E; [lia|].
+  destruct a as [n d]. destruct Oa as [Hd G]. cbn [fst snd] in *.
+  unfold q_is_integer in E; cbn [snd] in E. apply Z.eqb_neq in E.
+  destruct (Z_lt_le_dec (q_floor (n, d)) (q_ceiling (n, d))) as [K|K]; [exact K|exfalso].
+  set (z := q_ceiling (n, d)) in *.
+  assert (A : le xq_cmp (XFin (n, d)) (zq z)) by (apply (L1 z); [split; auto | lia]).
+  assert (B : le xq_cmp (zq z) (XFin (n, d))) by (apply (U1 z); [split; auto | lia]).
+  unfold le, zq, xq_cmp in A, B; cbn [fst snd] in A, B. rewrite Z.compare_gt_iff in A, B.
+  apply (not_multiple n d z Hd G E). lia.
+Qed.
+
+Theorem itv_contains_int_spec X : WFx X -> (itv_contains_int X = true <-> exists z, int_mem z X).
+Proof.
+  destruct X as [a b ao bo p]. unfold WFx, WF; cbn [ia ib ia_open ib_open ipt].
+  intros (W & Oa & Ob & Fp). unfold itv_contains_int; cbn [ia ib ia_open ib_open ipt].
+  destruct a as [|qa|]; cbn [xq_is_infinity].
+  - (* a = -inf *)
+    split; [intros _|reflexivity]. destruct p; [exfalso; apply Fp; reflexivity|].
+    destruct b as [|qb|]; [discriminate W| |].
+    + exists (UBq qb bo). apply int_mem_minf_fin; auto. lia.
+    + exists 0. apply int_mem_minf_pinf.
+  - cbn [xq_is_integer].
+    destruct p.
+    + (* point *)
+      destruct W as (-> & -> & ->). pose proof (point_int_range qa Oa) as PR.
+      destruct (q_is_integer qa).
+      * split; [intros _|reflexivity]. exists (fst qa). apply int_mem_point; auto. lia.
+      * split; [discriminate|]. intros (z & Hz). apply int_mem_point in Hz; auto. lia.
+    + unfold lt in W.
+      destruct (negb ao && q_is_integer qa) eqn:E1.
+      { split; [intros _|reflexivity]. apply andb_prop in E1. destruct E1 as [E1 E2].
+        apply negb_true_iff in E1. subst ao. exists (fst qa).
+        destruct b as [|qb|]; [discriminate W| |].
+        - apply int_mem_finite; auto. pose proof (strict_gap qa qb Oa Ob W) as SG.
+          rewrite (LBq_closed qa), E2. unfold LBq in *. rewrite E2 in *.
+          destruct bo; [lia|]. rewrite (UBq_closed qb). destruct (q_is_integer qb); lia.
+        - apply int_mem_fin_pinf; auto. unfold LBq. rewrite E2. lia. }
+      destruct b as [|qb|]; [discriminate W| |]; cbn [xq_is_infinity xq_is_integer].
+      2:{ split; [intros _|reflexivity]. exists (LBq qa ao). apply int_mem_fin_pinf; auto. lia. }
+      destruct (negb bo && q_is_integer qb) eqn:E2.
+      { split; [intros _|reflexivity]. apply andb_prop in E2. destruct E2 as [E2 E3].
+        apply negb_true_iff in E2. subst bo. exists (fst qb).
+        apply int_mem_finite; auto. pose proof (strict_gap qa qb Oa Ob W) as SG.
+        rewrite (UBq_closed qb), E3. unfold UBq in *. rewrite E3 in *.
+        destruct ao; [lia|]. rewrite (LBq_closed qa). destruct (q_is_integer qa); lia. }
+      (* the general case *)
+      cbn [xq_ceiling xq_floor].
+      assert (EL : LBq qa ao = (if q_is_integer qa then q_ceiling qa + 1 else q_ceiling qa)).
+      { rewrite <- LBq_true. destruct ao; [reflexivity|]. rewrite LBq_closed. cbn in E1. rewrite E1. lia. }
+      assert (EU : UBq qb bo = (if q_is_integer qb then q_floor qb - 1 else q_floor qb)).
+      { rewrite <- UBq_true. destruct bo; [reflexivity|]. rewrite UBq_closed. cbn in E2. rewrite E2. lia. }
+      rewrite Z.geb_le. rewrite <- EL, <- EU. split.
+      * intro K. exists (LBq qa ao). apply int_mem_finite; auto. lia.
+      * intros (z & Hz). apply int_mem_finite in Hz; auto. lia.
+  - (* a = +inf: not well-formed *)
+    destruct p; [exfalso; apply Fp; reflexivity|]. unfold lt in W. destruct b; discriminate W.
+Qed.
+
+Theorem itv_count_int_spec X : WFx X ->
+  0 <= itv_count_int X <= LONG_MAX /\
+  (itv_count_int X < LONG_MAX -> exists lo, forall z, int_mem z X <-> lo <= z < lo + itv_count_int X) /\
+  (itv_count_int X = LONG_MAX -> exists lo, forall z, lo <= z < lo + LONG_MAX -> int_mem z X).
+Proof.
+  destruct X as [a b ao bo p]. unfold WFx, WF; cbn [ia ib ia_open ib_open ipt].
+  intros (W & Oa & Ob & Fp). unfold itv_count_int; cbn [ia ib ia_open ib_open ipt].
+  assert (LM : LONG_MAX = 9223372036854775807) by reflexivity.
+  destruct a as [|qa|]; cbn [xq_is_infinity].
+  - (* a = -inf *)
+    destruct p; [exfalso; apply Fp; reflexivity|].
+    split; [lia|]. split; [lia|]. intros _.
+    destruct b as [|qb|]; [discriminate W| |].
+    + exists (UBq qb bo - LONG_MAX). intros z Hz. apply int_mem_minf_fin; auto. lia.
+    + exists 0. intros z _. apply int_mem_minf_pinf.
+  - cbn [xq_is_integer].
+    destruct p.
+    + destruct W as (-> & -> & ->). pose proof (point_int_range qa Oa) as PR.
+      destruct (q_is_integer qa).
+      * split; [lia|]. split; [|lia]. intros _. exists (fst qa). intro z. rewrite int_mem_point by auto. lia.
+      * split; [lia|]. split; [|lia]. intros _. exists 0. intro z. rewrite int_mem_point by auto. lia.
+    + unfold lt in W.
+      destruct b as [|qb|]; [discriminate W| |]; cbn [xq_is_infinity xq_is_integer xq_ceiling xq_floor].
+      2:{ split; [lia|]. split; [lia|]. intros _. exists (LBq qa ao). intros z Hz. apply int_mem_fin_pinf; auto. lia. }
+      pose proof (strict_gap qa qb Oa Ob W) as SG.
+      rewrite <- LBq_true, <- UBq_true.
+      set (m := LBq qa true) in *. set (u := UBq qb true) in *.
+      set (ca := negb ao && q_is_integer qa). set (cb := negb bo && q_is_integer qb).
+      assert (EL : LBq qa ao = m - (if ca then 1 else 0)).
+      { unfold ca, m. destruct ao; cbn [negb andb]; [lia|]. rewrite LBq_closed. reflexivity. }
+      assert (EU : UBq qb bo = u + (if cb then 1 else 0)).
+      { unfold cb, u. destruct bo; cbn [negb andb]; [lia|]. rewrite UBq_closed. reflexivity. }
+      assert (MEM : forall z, int_mem z (mkItv (XFin qa) (XFin qb) ao bo false) <->
+                              m - (if ca then 1 else 0) <= z <= u + (if cb then 1 else 0)).
+      { intro z. rewrite int_mem_finite by auto. rewrite EL, EU. tauto. }
+      unfold fits_int. assert (LMn : LONG_MIN = -9223372036854775808) by reflexivity.
+      destruct (0 <=? u - m) eqn:E0; [apply Z.leb_le in E0 | apply Z.leb_gt in E0].
+      * destruct ((LONG_MIN <=? u - m) && (u - m <=? LONG_MAX)) eqn:E1.
+        -- apply andb_prop in E1. destruct E1 as [_ E1]. apply Z.leb_le in E1.
+           destruct (u - m >=? LONG_MAX - ((if ca then 1 else 0) + (if cb then 1 else 0))) eqn:E2;
+             [apply Z.geb_le in E2 | rewrite Z.geb_leb in E2; apply Z.leb_gt in E2].
+           ++ split; [lia|]. split; [lia|]. intros _. exists (m - (if ca then 1 else 0)). intros z Hz. apply MEM.
+              destruct ca, cb; lia.
+           ++ split; [destruct ca, cb; lia|]. split.
+              ** intros _. exists (m - (if ca then 1 else 0)). intro z. rewrite MEM. destruct ca, cb; lia.
+              ** intro Heq. exists (m - (if ca then 1 else 0)). intros z Hz. apply MEM. destruct ca, cb; lia.
+        -- apply andb_false_iff in E1. destruct E1 as [E1|E1]; [apply Z.leb_gt in E1; lia|]. apply Z.leb_gt in E1.
+           split; [lia|]. split; [lia|]. intros _. exists (m - (if ca then 1 else 0)). intros z Hz. apply MEM.
+           destruct ca, cb; lia.
+      * split; [destruct ca, cb; lia|]. split; [|destruct ca, cb; lia]. intros _.
+        exists (m - (if ca then 1 else 0)). intro z. rewrite MEM. destruct ca, cb; lia.
+  - destruct p; [exfalso; apply Fp; reflexivity|]. unfold lt in W. destruct b; discriminate W.
+Qed.
+
+Lemma xs_contains_int_spec s : Forall WFx s -> (xs_contains_int s = true <-> exists z, int_mem_set z s).
+Proof.
+  induction s as [|X t IH]; intro F.
+  - cbn. split; [discriminate|]. intros (z & Y & [] & _).
+  - inversion F as [|? ? WX Ft]; subst. cbn [xs_contains_int].
+    destruct (itv_contains_int X) eqn:E.
+    + split; [intros _|reflexivity]. apply (itv_contains_int_spec X WX) in E. destruct E as (z & Hz).
+      exists z, X. split; [left; auto|exact Hz].
+    + rewrite (IH Ft). split.
+      * intros (z & Y & HY & Hz). exists z, Y. split; [right; auto|exact Hz].
+      * intros (z & Y & [<-|HY] & Hz).
+        -- exfalso. assert (itv_contains_int X = true) by (apply itv_contains_int_spec; eauto). congruence.
+        -- exists z, Y. split; auto.
+Qed.
+
+(* lp_interval_contains = membership; only the antisymmetry of the comparison is needed *)
+Lemma itv_contains_mem {T : Type} (cmp : T -> T -> comparison) (X : itv T) v :
+  (forall x y, cmp y x = CompOpp (cmp x y)) ->
+  (ipt X = true -> ia_open X = false /\ ib_open X = false) ->
+  (itv_contains cmp X v = true <-> mem cmp v X).
+Proof.
+  intros AS WP. unfold itv_contains, itv_cmp_value, mem, get_ub, lt, le.
+  destruct (ipt X) eqn:Ep.
+  - destruct (WP eq_refl) as [-> ->]. rewrite (AS (ia X) v).
+    destruct (cmp (ia X) v); cbn; split; intros K; try discriminate; try reflexivity;
+      try (split; discriminate); try (destruct K; congruence).
+  - destruct (ia_open X), (ib_open X); destruct (cmp (ia X) v) eqn:E1; destruct (cmp v (ib X)) eqn:E2; cbn;
+      split; intros K; try discriminate; try reflexivity; try (destruct K; congruence); try (split; congruence).
+Qed.
+
+Lemma xs_mem_spec s v : Forall WFx s -> (xs_mem s v = true <-> mem_set xq_cmp v s).
+Proof.
+  intro F. unfold xs_mem, mem_set. rewrite existsb_exists. rewrite Forall_forall in F.
+  assert (AS : forall x y, xq_cmp y x = CompOpp (xq_cmp x y)).
+  { intros [|[n d]|] [|[n' d']|]; cbn; try reflexivity. apply Z.compare_antisym. }
+  split; intros (X & HX & K); exists X; split; auto.
+  - apply (itv_contains_mem xq_cmp X v AS); auto. destruct (F X HX) as (W & _). unfold WF in W. intro Ep. rewrite Ep in W. tauto.
+  - apply (itv_contains_mem xq_cmp X v AS); auto. destruct (F X HX) as (W & _). unfold WF in W. intro Ep. rewrite Ep in W. tauto.
+Qed.
+
+(* the checker run on lp_feasibility_set_pick_value's answer accepts exactly the values that belong to the set
+   and are integers whenever the set contains an integer *)
+Theorem xs_pick_ok_spec s v : Forall WFx s ->
+  (xs_pick_ok s v = true <->
+   mem_set xq_cmp v s /\ ((exists z, int_mem_set z s) -> xq_is_integer v = true)).
+Proof.
+  intro F. unfold xs_pick_ok. rewrite andb_true_iff, (xs_mem_spec s v F).
+  pose proof (xs_contains_int_spec s F) as CI. destruct (xs_contains_int s).
+  - split; intros [A B]; split; auto. apply B. apply CI. reflexivity.
+  - split; intros [A B]; split; auto. intro K. apply CI in K. discriminate.
+Qed.
+
+Lemma xq_is_integer_zq v : xq_ok v -> (xq_is_integer v = true <-> exists z, v = zq z).
+Proof.
+  destruct v as [|[n d]|]; cbn; intro Ok.
+  - split; [discriminate|]. intros (z & E). discriminate.
+  - unfold q_is_integer, zq; cbn. rewrite Z.eqb_eq. split.
+    + intros ->. exists n. reflexivity.
+    + intros (z & E). inversion E. reflexivity.
+  - split; [discriminate|]. intros (z & E). discriminate.
+Qed.
+
+(* set level: the running sums of lp_feasibility_set_count_int / _is_point_int *)
+
+Lemma sum_counts_nonneg s : Forall WFx s -> 0 <= sum_counts s.
+Proof.
+  induction s as [|X t IH]; intro F; cbn [sum_counts fold_right]; [lia|]. inversion F as [|? ? WX Ft]; subst.
+  pose proof (itv_count_int_spec X WX) as (R & _). specialize (IH Ft). unfold sum_counts in IH. lia.
+Qed.
+
+Lemma xs_count_int_from_spec s : Forall WFx s -> forall cnt, 0 <= cnt <= LONG_MAX ->
+  cnt <= xs_count_int_from cnt s <= LONG_MAX /\
+  (xs_count_int_from cnt s < LONG_MAX -> xs_count_int_from cnt s = cnt + sum_counts s) /\
+  (xs_count_int_from cnt s = LONG_MAX -> LONG_MAX <= cnt + sum_counts s).
+Proof.
+  induction s as [|X t IH]; intros F cnt Hc; cbn [xs_count_int_from sum_counts fold_right].
+  - lia.
+  - inversion F as [|? ? WX Ft]; subst. pose proof (itv_count_int_spec X WX) as (R & _).
+    pose proof (sum_counts_nonneg t Ft) as SN. fold (sum_counts t).
+    destruct (itv_count_int X >=? LONG_MAX - cnt) eqn:E; [apply Z.geb_le in E | rewrite Z.geb_leb in E; apply Z.leb_gt in E].
+    + lia.
+    + destruct (IH Ft (cnt + itv_count_int X)) as (A & B & C); [lia|]. lia.
+Qed.
+
+Theorem xs_count_int_sum s : Forall WFx s ->
+  0 <= xs_count_int s <= LONG_MAX /\
+  (xs_count_int s < LONG_MAX -> xs_count_int s = sum_counts s) /\
+  (xs_count_int s = LONG_MAX -> LONG_MAX <= sum_counts s).
+Proof.
+  intro F. unfold xs_count_int. assert (LM : LONG_MAX = 9223372036854775807) by reflexivity.
+  destruct (xs_count_int_from_spec s F 0) as (A & B & C); [lia|]. lia.
+Qed.
+
+Lemma xs_is_point_int_from_spec s : Forall WFx s -> forall cnt, 0 <= cnt ->
+  (xs_is_point_int_from cnt s = true <-> cnt + sum_counts s = 1).
+Proof.
+  induction s as [|X t IH]; intros F cnt Hc; cbn [xs_is_point_int_from sum_counts fold_right].
+  - rewrite Z.eqb_eq. lia.
+  - inversion F as [|? ? WX Ft]; subst. pose proof (itv_count_int_spec X WX) as (R & _).
+    pose proof (sum_counts_nonneg t Ft) as SN. fold (sum_counts t).
+    destruct ((1 <? itv_count_int X) || (1 <? itv_count_int X + cnt)) eqn:E.
+    + apply orb_prop in E. split; [discriminate|]. destruct E as [E|E]; apply Z.ltb_lt in E; lia.
+    + apply orb_false_iff in E. destruct E as [E1 E2]. rewrite (IH Ft (cnt + itv_count_int X)) by lia. lia.
+Qed.
+
+Theorem xs_is_point_int_sum s : Forall WFx s -> (xs_is_point_int s = true <-> sum_counts s = 1).
+Proof. intro F. unfold xs_is_point_int. rewrite (xs_is_point_int_from_spec s F 0) by lia. lia. Qed.
+
+Lemma rk_pick_ok_spec s v : NF Z.compare s -> (rk_pick_ok s v = true <-> mem_set Z.compare v s).
+Proof.
+  intro N. unfold rk_pick_ok, rk_contains.
+  destruct (fs_contains_spec Z_total_order s v N) as (b & -> & Hb). destruct b; split; intro K; auto; try discriminate.
+  - apply Hb. reflexivity.
+  - apply Hb in K. discriminate.
+Qed.
+
+End IntOps.
